@@ -81,7 +81,7 @@ func init() {
 			x.Release()
 			x.OnCleanup(func() { m.hs.Close(); m.ps.Close() })
 			d := newDone(x)
-			x.Data["d"] = d
+			x.Put("d", d)
 			for i, pat := range strings.Split(p["pat"], ",") {
 				id := uint32(10 + i)
 				ds, order, gap, start := parsePat(pat)
@@ -99,7 +99,7 @@ func init() {
 					c, err := ab.Accept(id)
 					x.Obs("accept%d err=%v", id, err != nil)
 					if err != nil {
-						x.Data[fmt.Sprintf("aerr%d", id)] = fmt.Sprintf("%v after %v", err, x.Now()-t0)
+						x.Put(fmt.Sprintf("aerr%d", id), fmt.Sprintf("%v after %v", err, x.Now()-t0))
 						return
 					}
 					hdr := make([]byte, 8)
@@ -149,7 +149,7 @@ func init() {
 					c, err := db.Dial(id)
 					x.Obs("dial%d err=%v", id, err != nil)
 					if err != nil {
-						x.Data[fmt.Sprintf("derr%d", id)] = fmt.Sprintf("%v after %v", err, x.Now()-t0)
+						x.Put(fmt.Sprintf("derr%d", id), fmt.Sprintf("%v after %v", err, x.Now()-t0))
 						return
 					}
 					hdr := make([]byte, 8)
@@ -186,7 +186,7 @@ func init() {
 					x.Obs("dial%d ok", id)
 				})
 			}
-			x.Data["m"] = m
+			x.Put("m", m)
 		},
 		Check: func(x *vs.Exec, p explore.Params) {
 			d, _ := x.Data["d"].(*done)
